@@ -653,47 +653,51 @@ def batch_cases(run):
             shutil.copy(DATA / fn, d / "data" / fn)
         pf = profile.Profile(d / "p.cfg")
         pf["model_key"] = mk
-        run.case({"batch": mk}, kind="batch")
-        try:
-            with warnings.catch_warnings():
-                warnings.simplefilter("ignore")
-                o = builtins.print
-                builtins.print = lambda *a, **k: None
-                try:
-                    fit_perform(d / "data", d / "out",
-                                profile_path=d / "p.cfg")
-                finally:
-                    builtins.print = o
-        except BaseException as e:
-            run.failing(SITE_FIT, f"batch:{mk}:{type(e).__name__}:{e}",
-                        f"fit_perform with model {mk} raised "
-                        f"{type(e).__name__}: {e}",
-                        payload={"kind": "batch", "model": mk},
-                        theorem="C19 (statistics)")
-            continue
-        rows = [ln.split("\t") for ln in (d / "out" / "statistics.tsv")
-                .read_text().splitlines()]
-        import afmformats
-        want = []
-        for pp in afmformats.find_data(d / "data", modality="force-distance"):
-            for idnt in IndentationGroup(pp):
-                want.append((str(idnt.path), str(idnt.enum)))
-        why = None
-        if rows[0] != ["path", "enum", "E", "rating"]:
-            why = f"header {rows[0]}"
-        elif [tuple(r[:2]) for r in rows[1:]] != want:
-            why = (f"{len(rows) - 1} rows for {len(want)} curves or other "
-                   "paths/enumerations")
-        else:
-            for r in rows[1:]:
-                if round(float(r[3]), 1) != float(r[3]) or \
-                        not np.isfinite(float(r[2])):
-                    why = f"row {r}: rating not rounded / modulus not finite"
-        if why:
-            run.failing(SITE_FIT, f"batch:{mk}:rows", f"statistics.tsv for "
-                        f"{mk}: {why}", payload={"kind": "batch",
-                                                 "model": mk},
-                        theorem="C19 (statistics)")
+        # twice into the same results directory: the second run replaces the
+        # statistics of the first
+        for nrun in (1, 2):
+            run.case({"batch": mk, "run": nrun}, kind="batch")
+            try:
+                with warnings.catch_warnings():
+                    warnings.simplefilter("ignore")
+                    o = builtins.print
+                    builtins.print = lambda *a, **k: None
+                    try:
+                        fit_perform(d / "data", d / "out",
+                                    profile_path=d / "p.cfg")
+                    finally:
+                        builtins.print = o
+            except BaseException as e:
+                run.failing(SITE_FIT, f"batch:{mk}:{type(e).__name__}:{e}",
+                            f"fit_perform with model {mk} raised "
+                            f"{type(e).__name__}: {e}",
+                            payload={"kind": "batch", "model": mk},
+                            theorem="C19 (statistics)")
+                continue
+            rows = [ln.split("\t") for ln in (d / "out" / "statistics.tsv")
+                    .read_text().splitlines()]
+            import afmformats
+            want = []
+            for pp in afmformats.find_data(d / "data", modality="force-distance"):
+                for idnt in IndentationGroup(pp):
+                    want.append((str(idnt.path), str(idnt.enum)))
+            why = None
+            if rows[0] != ["path", "enum", "E", "rating"]:
+                why = f"header {rows[0]}"
+            elif [tuple(r[:2]) for r in rows[1:]] != want:
+                why = (f"{len(rows) - 1} rows for {len(want)} curves or other "
+                       "paths/enumerations")
+            else:
+                for r in rows[1:]:
+                    if round(float(r[3]), 1) != float(r[3]) or \
+                            not np.isfinite(float(r[2])):
+                        why = f"row {r}: rating not rounded / modulus not finite"
+            if why:
+                run.failing(SITE_FIT, f"batch:{mk}:rows:{nrun}", f"statistics.tsv for "
+                            f"{mk} (run {nrun} into the same results "
+                            f"directory): {why}", payload={"kind": "batch",
+                                                     "model": mk},
+                            theorem="C19 (statistics)")
         shutil.rmtree(d, ignore_errors=True)
 
 
